@@ -253,6 +253,13 @@ def main(argv=None):
     ap.add_argument("--no-minimise", action="store_true")
     ap.add_argument("--evidence", default=None)
     args = ap.parse_args(argv)
+    if os.environ.get("PYTHONHASHSEED") != "0" and not args.digests and argv is None:
+        # one seed = one run: pin the only interpreter-level source of
+        # nondeterminism (str hash order) before anything is imported
+        env = dict(os.environ)
+        env["PYTHONHASHSEED"] = "0"
+        sys.stdout.flush()
+        os.execve(sys.executable, [sys.executable, "-m", "sim.run"] + sys.argv[1:], env)
     setup_path()
     sys.setrecursionlimit(20000)
     prop = args.property
@@ -288,14 +295,15 @@ def replay(prop, path):
     if v is None:
         print(f"REPLAY property={prop} file={path}: no violation (expected {want.get('class')})")
         return 0
-    same = v["class"] == want.get("class") and v.get("digest") == want.get("digest")
+    same_class = v["class"] == want.get("class")
+    same = same_class and v.get("digest") == want.get("digest")
     print(f"REPLAY property={prop} class={v['class']} digest={v.get('digest')} "
           f"expected_class={want.get('class')} expected_digest={want.get('digest')} "
-          f"{'REPRODUCED' if same else 'DIFFERENT'}")
+          f"{'REPRODUCED' if same else ('SAME-VIOLATION-DIFFERENT-TRACE' if same_class else 'DIFFERENT')}")
     print(json.dumps({"op": v.get("op"), "got": v.get("got"), "ref": v.get("ref"),
                       "diff_at": v.get("diff_at")}, indent=1)[:4000])
     print(f"VIOLATION property={prop} replay={path}")
-    return 1 if same else 2
+    return 1 if same_class else 2
 
 
 if __name__ == "__main__":
